@@ -9,8 +9,12 @@ import sympy
 from symrun import ring
 
 
+CURRENT = []
+
+
 class Suite:
     def __init__(self):
+        CURRENT.append(self)
         self.obligations = []
         self.errors = []
         self.skipped = []
@@ -88,6 +92,29 @@ class Suite:
         """a ground (parameter-free, non-numeric) fact decided natively, e.g. a type or arity"""
         self.obligations.append({'name': name, 'what': what, 'ground': bool(holds), 'zero': [], 'vars': [],
                                  'functions': list(functions)})
+
+    def guard(self, name, functions=()):
+        """context manager: an exception raised by the real code while an obligation is being built is a
+        failed obligation (the function under contract raised on an input of its domain), not a checker error"""
+        suite = self
+
+        class _Guard:
+            def __enter__(self_):
+                return self_
+
+            def __exit__(self_, et, ev, tb):
+                if et is None or not issubclass(et, Exception):
+                    return False
+                import traceback
+                frames = traceback.extract_tb(tb)
+                where = [f for f in frames if '/discopy/' in f.filename]
+                loc = '%s:%d in %s' % (where[-1].filename, where[-1].lineno, where[-1].name) if where else \
+                    '%s:%d' % (frames[-1].filename, frames[-1].lineno)
+                suite.obligations.append({'name': name + '.no_exception', 'ground': False, 'zero': [], 'vars': [],
+                                          'what': 'the real code raised %s: %s (at %s)' % (et.__name__, str(ev)[:300], loc),
+                                          'functions': list(functions), 'raised_in_discopy': bool(where)})
+                return True
+        return _Guard()
 
     def skip(self, name, reason):
         """an obligation that cannot be stated in this environment (external library), reported"""
